@@ -67,6 +67,8 @@ type FnCtx struct {
 	curInstr   ssa.Instruction
 
 	noRecord    bool
+	freshSet    map[string]bool
+	specDepth   int
 	anchorArgs  []Val
 	anchorRes   *Val
 	anchorLog   []anchorKey
@@ -280,10 +282,12 @@ func (fc *FnCtx) loadAt(st *State, t types.Type, ref string) Val {
 	return out
 }
 
-func isFreshRef(ref string) bool { return strings.HasPrefix(ref, "|alloc!") }
+func (fc *FnCtx) isFreshRef(ref string) bool {
+	return strings.HasPrefix(ref, "|alloc!") || fc.freshSet[ref]
+}
 
 func (fc *FnCtx) storeAt(st *State, t types.Type, ref string, v Val) {
-	if isFreshRef(ref) && !fc.noRecord {
+	if fc.isFreshRef(ref) && !fc.noRecord {
 		fc.noRecord = true
 		defer func() { fc.noRecord = false }()
 	}
@@ -409,7 +413,7 @@ func (fc *FnCtx) loadFat(st *State, elem types.Type, p fatPtr) Val {
 }
 
 func (fc *FnCtx) storeFat(st *State, elem types.Type, p fatPtr, v Val) {
-	if isFreshRef(p.ref) && !fc.noRecord {
+	if fc.isFreshRef(p.ref) && !fc.noRecord {
 		if _, ok := litFid(p.fid); ok {
 			fc.noRecord = true
 			defer func() { fc.noRecord = false }()
@@ -528,6 +532,10 @@ func (fc *FnCtx) wfInto(t types.Type, L []string, facts *[]string) {
 		*facts = append(*facts, implies(eq(L[0], bvLit(0, 16)), eq(L[1], bvLit(0, 64))))
 		// data invariant: no nil in-repo pointer inside an interface
 		*facts = append(*facts, implies(fc.isRepoPtrTag(L[0]), not(eq(L[1], bvLit(0, 64)))))
+		// an interface with unexported methods can only hold types of this repository
+		if fc.eng.sealedIface(u) && fc.eng.isRepoIface(t) {
+			*facts = append(*facts, fc.sealedTagFact(t, u, L[0]))
+		}
 	case *types.Pointer:
 		if !ptrIsThin(u.Elem()) {
 			// a nil fat pointer is all zero
@@ -1080,4 +1088,19 @@ func (fc *FnCtx) isRepoPtrTag(tag string) string {
 		fc.decls = append(fc.decls, fmt.Sprintf("(define-fun isrepoptr ((t %s)) Bool %s)", SortTag, or(alts...)))
 	}
 	return app("isrepoptr", tag)
+}
+
+func (fc *FnCtx) sealedTagFact(t types.Type, iface *types.Interface, tag string) string {
+	name := qsym("sealed!" + typeKey(t))
+	if _, ok := fc.declared["fun!"+name]; !ok {
+		fc.declared["fun!"+name] = "x"
+		alts := []string{eq("t", bvLit(0, 16))}
+		for _, kt := range fc.eng.knownTypes() {
+			if types.Implements(kt, iface) {
+				alts = append(alts, eq("t", fc.tagOf(kt)))
+			}
+		}
+		fc.decls = append(fc.decls, fmt.Sprintf("(define-fun %s ((t %s)) Bool %s)", name, SortTag, or(alts...)))
+	}
+	return app(name, tag)
 }
